@@ -49,7 +49,7 @@ def build_ch(ch, family="Node", names=None):
 READ_FAMILIES = ("Node", "NM", "LM", "AnyNode", "VAL", "FALSY", "VALLM")
 
 
-def evolving_universe(ctx, rng, fam, k, steps):
+def evolving_universe(ctx, rng, fam, k, steps, fault_rate=0.0):
     """One universe of k nodes mutated step by step with random fault-free
     structural calls; yields (nodes, par, ch, history) after every step (the
     same node objects throughout, so stale caches inside the library show)."""
@@ -67,8 +67,13 @@ def evolving_universe(ctx, rng, fam, k, steps):
     for _ in range(steps):
         snap = rec.snapshot()
         call = eng.random_call(rng, k, [p for p, _ in snap], "LM")
-        hist.append(F._jsonable(call))
-        F.run_call(rec, ffam, call, F.NOPLAN, snaps_on=False)
+        plan = ("none",)
+        if fault_rate and rng.random() < fault_rate:
+            # a hook raising somewhere in the call (post hooks included): what the call leaves behind
+            # in the objects must still give fresh answers afterwards
+            plan = ("once", rng.randrange(0, 6))
+        hist.append([F._jsonable(call), F._jsonable(plan)])
+        F.run_call(rec, ffam, call, F.Plan(plan), snaps_on=False)
         snap = rec.snapshot()
         if M.invariant(snap):
             return
@@ -87,8 +92,12 @@ def replay_universe(case):
     states = []
     snap = rec.snapshot()
     states.append((rec.nodes, [p for p, _ in snap], [list(c) for _, c in snap]))
-    for call in case["history"]:
-        F.run_call(rec, ffam, tup(call), F.NOPLAN, snaps_on=False)
+    for ent in case["history"]:
+        if len(ent) == 2 and isinstance(ent[1], list) and ent[1] and ent[1][0] in ("none", "once"):
+            call, plan = ent
+        else:
+            call, plan = ent, ["none"]
+        F.run_call(rec, ffam, tup(call), F.Plan(tup(plan)), snaps_on=False)
         snap = rec.snapshot()
         states.append((rec.nodes, [p for p, _ in snap], [list(c) for _, c in snap]))
     return states
